@@ -127,6 +127,14 @@ def all_names(hfn):
     return names
 
 
+STD_CONSTS = {
+    'core::f64::<impl f64>::EPSILON': 2.220446049250313e-16, 'std::f64::EPSILON': 2.220446049250313e-16,
+    'core::f32::<impl f32>::EPSILON': 1.1920928955078125e-07, 'std::f32::EPSILON': 1.1920928955078125e-07,
+    'core::num::<impl i32>::MAX': 2147483647, 'core::num::<impl i32>::MIN': -2147483648,
+    'std::i32::MAX': 2147483647, 'core::num::<impl u8>::MAX': 255,
+}
+
+
 class Ctx:
     def __init__(self, facts, inits=None, hfn=None):
         self.facts = facts
@@ -151,6 +159,8 @@ class Ctx:
             c = self.facts.consts.get(e.get('def'))
             if c is not None and 'v' in c:
                 return c['v']
+            if e.get('def') in STD_CONSTS:
+                return STD_CONSTS[e['def']]
         if k == 'cast':
             return self.const_value(e['e'])
         if k == 'call' and e['f'].get('k') == 'path' and e['f'].get('name') == 'from' and len(e['args']) == 1:
